@@ -922,3 +922,93 @@ Proof.
   intros H. destruct (start_next_row_failure w5 false w' e H) as [A|A]; [|right; exact A].
   destruct (start_next_row_J w5 J5) as [[k [act E]] _]. congruence.
 Qed.
+
+(* ------------------------------------------------------------------ C19: server-mode control *)
+(* the generator being rung is only ever REPLACED by the hand-over of a Look to; everything else
+   keeps its kind, stage and start row (ticks advance it, Bob/Single set its flags) *)
+Definition same_gen (w w' : world) : Prop := static_eq (b_gen (w_bot w')) (b_gen (w_bot w)).
+
+Lemma static_refl g : static_eq g g.  Proof. unfold static_eq. auto. Qed.
+Lemma static_trans a b c : static_eq a b -> static_eq b c -> static_eq a c.
+Proof. unfold static_eq. intros [A [B [C D]]] [A' [B' [C' D']]]. repeat split; congruence. Qed.
+
+Lemma generate_next_row_same_gen w : same_gen w (fst (generate_next_row w)).
+Proof.
+  unfold generate_next_row, same_gen.
+  destruct (b_opening_flag (w_bot w)); [apply static_refl|].
+  destruct (b_rounds_flag (w_bot w)); [apply static_refl|].
+  destruct (gen_next _ _) as [[g' [r cs]]|e] eqn:E; [|apply static_refl].
+  cbn. eapply gen_next_static; eauto.
+Qed.
+
+Lemma start_next_row_same_gen w f : same_gen w (fst (start_next_row w f)).
+Proof.
+  unfold start_next_row, same_gen.
+  destruct (snr_ctl _ _ _ _ _ _) as [[k act]|e]; [|apply static_refl].
+  set (w2 := upd_bot _ (fun b => set_ctl b k)).
+  assert (E2 : b_gen (w_bot w2) = b_gen (w_bot w)).
+  { unfold w2. destruct act as [|[|]]; cbn; rewrite ?bot_make_call; reflexivity. }
+  set (w3 := match act with Start _ => upd_bot w2 _ | NoStart => w2 end).
+  assert (E3 : static_eq (b_gen (w_bot w3)) (b_gen (w_bot w))).
+  { unfold w3. destruct act as [|cs].
+    - rewrite E2. apply static_refl.
+    - change (static_eq (gen_reset (b_gen (w_bot w2))) (b_gen (w_bot w))). rewrite E2.
+      unfold static_eq. cbn. auto. }
+  destruct (negb (b_ringing (w_bot w3))); [exact E3|].
+  pose proof (generate_next_row_same_gen w3) as G. unfold same_gen in G.
+  destruct (generate_next_row w3) as [w4 [e|]]; cbn [hthen hok fst] in *.
+  - eapply static_trans; eauto.
+  - rewrite bot_expect_loop. eapply static_trans; eauto.
+Qed.
+
+(* a selection only writes next_row_generator; a malformed one (RowGenParseError or any other
+   exception out of the parser) leaves the state exactly as it was *)
+Lemma row_gen_only_queues w j :
+  b_gen (w_bot (fst (on_row_gen w j))) = b_gen (w_bot w)
+  /\ match json_to_row_generator j with
+     | JGen g => b_next_gen (w_bot (fst (on_row_gen w j))) = Some g
+     | _ => fst (on_row_gen w j) = w
+     end.
+Proof. unfold on_row_gen. destruct (json_to_row_generator j); cbn; auto. Qed.
+
+(* Stop touch: ringing is switched off at once; the main loop then rings nothing more *)
+Lemma stop_touch_stops w : b_ringing (w_bot (on_stop_touch w)) = false.
+Proof. reflexivity. Qed.
+Lemma not_ringing_no_tick fuel w :
+  b_ringing (w_bot w) = false -> main_step fuel w PRing = (w, PRingExit, Running).
+Proof. intros H. unfold main_step. now rewrite H. Qed.
+
+(* the roll call is answered exactly when the main loop leaves the idle loop because ringing has
+   started *)
+Lemma ring_enter_needs_ringing fuel w w' p' o :
+  main_step fuel w PIdle = (w', p', o) -> p' = PRingEnter -> b_ringing (w_bot w) = true.
+Proof.
+  unfold main_step. destruct (b_ringing (w_bot w)); [auto|].
+  destruct (server_mode _ && _); intros H E; inversion H; subst; discriminate.
+Qed.
+Lemma ring_enter_emits_roll_call fuel w id :
+  b_instance (w_bot w) = Some id ->
+  fst (fst (main_step fuel w PRingEnter)) = log (log w (OIsRinging true)) (ORollCall id).
+Proof. intros H. unfold main_step. now rewrite H. Qed.
+
+(* Wheatley exits only from the idle loop, only in server mode, only after more than 300 s of it *)
+Lemma exit_only_when_idle fuel w p w' p' :
+  main_step fuel w p = (w', p', Exited) ->
+  p = PIdle /\ b_ringing (w_bot w) = false /\ server_mode w' = true
+  /\ Qltb (qadd (b_last_activity (w_bot w')) INACTIVITY) (w_now w') = true.
+Proof.
+  unfold main_step. destruct p as [k| | | | |].
+  - destruct (tw_bells (w_tower w)); [destruct (k <? 20); discriminate | discriminate].
+  - discriminate.
+  - destruct (b_ringing (w_bot w)) eqn:R; [discriminate|].
+    set (w1 := sleep fuel w SLEEP_001).
+    set (w2 := if server_mode w1 then _ else w1).
+    destruct (server_mode w2) eqn:S; cbn [andb]; [|discriminate].
+    destruct (Qltb _ (w_now w2)) eqn:Q; [|discriminate].
+    intros H. inversion H; subst.
+    assert (B : w_bot w2 = w_bot w1) by (unfold w2; destruct (server_mode w1); reflexivity).
+    rewrite B. auto.
+  - destruct (b_instance (w_bot w)); discriminate.
+  - destruct (b_ringing (w_bot w)); [|discriminate]. destruct (tick fuel w) as [w1 [e|]]; discriminate.
+  - discriminate.
+Qed.
